@@ -173,6 +173,8 @@ struct Ctx<'a> {
     /// position-less plans: a scenario may hold the same step (keyword, text, position 0:0) twice
     repeat_steps: bool,
     dup_scenarios: bool,
+    /// some scenarios of this plan have dozens of steps (a backlog of well over 64 events per attempt)
+    long_scenarios: bool,
 }
 
 const SPICE: &[&str] = &["", "", "", " \"q\"", " <b>&amp;", " a\\b", " émoji ✓", " it's", " 100%"];
@@ -193,7 +195,7 @@ fn gen_steps(c: &mut Ctx<'_>, id: &str, n: usize) -> Vec<StepSpec> {
 }
 
 fn gen_scenario(c: &mut Ctx<'_>, id: &str, max_steps: usize, serial: bool, retry_tag: Option<String>, outline: bool) -> ScenarioSpec {
-    let n = c.r.usize(0, max_steps);
+    let n = if c.long_scenarios && c.r.chance(1, 4) { c.r.usize(33, 90) } else { c.r.usize(0, max_steps) };
     let mut steps = gen_steps(c, id, n);
     if c.repeat_steps && n >= 2 && c.r.chance(1, 3) {
         steps[0] = steps[n - 1].clone();
@@ -231,7 +233,8 @@ fn gen_scenario(c: &mut Ctx<'_>, id: &str, max_steps: usize, serial: bool, retry
 }
 
 fn gen_retry_tag(r: &mut Rng, delay: bool, max_retries: usize) -> String {
-    let n = r.usize(0, max_retries);
+    // (now and then a budget of two or three digits - more than the attempts any scenario will need)
+    let n = if r.chance(1, 10) { *r.pick(&[10usize, 12, 15, 64, 100, 255, 256, 1000]) } else { r.usize(0, max_retries) };
     match (r.chance(3, 4), delay) {
         (true, true) => format!("retry({n}).after({}ns)", r.log_dur(3_000_000_000)),
         (true, false) => format!("retry({n})"),
@@ -280,7 +283,17 @@ pub fn gen_plan(seed: u64, prof: &Profile) -> Plan {
     let dup_names = r.chance(prof.dup_names_pm, 1000);
     // features as a custom parser / typed builders produce them: all positions 0:0
     let positionless = r.chance(prof.positionless_pm, 1000);
-    let mut c = Ctx { r: &mut r, p: prof, undefined, doc_strings: prof.spicy, spicy_names: prof.spicy, repeat_steps: positionless && prof.repeat_steps, dup_scenarios: dup_names && !positionless };
+    let long_scenarios = !wide && !many_features && r.chance(50, 1000);
+    let mut c = Ctx {
+        r: &mut r,
+        p: prof,
+        undefined,
+        doc_strings: prof.spicy,
+        spicy_names: prof.spicy,
+        repeat_steps: positionless && prof.repeat_steps,
+        dup_scenarios: dup_names && !positionless,
+        long_scenarios,
+    };
     let _ = c.p;
     for fi in 0..n_feat {
         let fid = ident("F", fi);
